@@ -14,6 +14,7 @@ import random
 
 from .. import core
 from .. import readfiles as rf
+from .. import suitedumps
 
 NH = 7
 HNAMES = ["get_page", "read_caps", "reg_value", "sym_value", "sym_sizeof", "sym_offsetof", "num_value"]
@@ -95,6 +96,99 @@ def k_verdict(line):
     if parts[0] != parts[2]:
         return "deleting the layer did not restore the answers: %s -> %s" % (parts[0], parts[2])
     return None
+
+
+SITE_RE = None
+
+
+def scan_sites():
+    """in-library invocation sites of the seven hooks: [(file:line, hook, 'same'|'other', text)]"""
+    import glob
+    import re
+    pat = re.compile(r"((?:\w+(?:->|\.))*\w*cb)->(%s)\(\s*([^,)]+)" % "|".join(HNAMES))
+    out = []
+    for f in sorted(glob.glob(os.path.join(core.REPO, "src", "*", "*.[ch]"))):
+        if os.path.basename(f).startswith("test-"):
+            continue
+        for ln, text in enumerate(open(f, errors="replace"), 1):
+            for m in pat.finditer(text):
+                recv, hook, arg = m.group(1), m.group(2), m.group(3).strip()
+                if recv.endswith("cb->next") or "->next" in recv:
+                    continue            # the next_*_cb defaults themselves (CbModel.passes_next)
+                out.append(("%s:%d" % (os.path.relpath(f, core.REPO), ln), hook,
+                            "same" if arg == recv else "other", text.strip()))
+    return out
+
+
+def check_sites(run):
+    model = core.run_model("cb", run.casefile("cb-sites.txt", ["SITES"]))[0].split()
+    found = scan_sites()
+    got = sorted("%s:%s" % (h, k) for _, h, k, _ in found)
+    run.count("library-call-sites", len(found))
+    if got != sorted(model):
+        odd = [x for x in found if x[2] != "same"]
+        what = ("; ".join("%s passes another record than the one whose function it calls: %s" % (x[0], x[3])
+                          for x in odd[:3]) or
+                "sites in the sources: %s; in CbModel.library_sites: %s" % (" ".join(got), " ".join(sorted(model))))
+        run.violation("tie", "in-library hook invocation sites differ from the transcription "
+                      "(CbModel.library_sites): " + what,
+                      {"engine": "cb", "ops": "SITES", "found": [list(x) for x in found], "model": model},
+                      found_input=False, signature="cb sites")
+
+
+def layer_cases(run):
+    """dump objects with 0, 1, 2 empty layers stacked before open: [(group key, case line)]"""
+    d = os.path.join(run.work, "suite")
+    want = ["elf-dom0-no-phys_base", "elf-vmcoreinfo", "elf-xen_prstatus", "early-version-code",
+            "elf-prstatus-x86_64", "elf-prstatus-aarch64", "elf-prstatus-arm", "elf-prstatus-i386",
+            "elf-prstatus-ppc64", "elf-prstatus-s390x", "elf-prstatus-riscv64", "elf-task_struct",
+            "diskdump-basic-raw", "diskdump-empty-ppc64", "diskdump-empty-s390x", "diskdump-v6-arm",
+            "lkcd-basic-raw", "sadump-basic-single"]
+    files = suitedumps.build(d, want)
+    from . import c16_api
+    vm = os.path.join(d, "out", "c17-vmci.dump")
+    if not os.path.exists(vm):
+        c16_api.vmcoreinfo_elf(vm, ["OSRELEASE=3.12.28", "PAGESIZE=4096", "NUMBER(phys_base)=31457280",
+                                    "SYMBOL(_stext)=ffffffff81000000", "SYMBOL(init_uts_ns)=ffffffff81c13440"])
+    files["c17-vmci"] = vm
+    addrs = "ffffffff81e15325 ffff880002000000 0 ffffffff81000000 c0001000"
+    out = []
+    for n in sorted(files):
+        for ost in ("linux", "xen", "-"):
+            for k in (0, 1, 2):
+                out.append(("%s/%s" % (n, ost), "L %d %s %s %s" % (k, ost, files[n], addrs)))
+    return out
+
+
+def judge_layers(run, exe, lcases, impl, crashes, base):
+    groups = {}
+    for j, (key, line) in enumerate(lcases):
+        i = base + j
+        ans = impl[i] if i < len(impl) else "NOT-RUN"
+        groups.setdefault(key, []).append((line, ans, i))
+    run.count("dump-object-groups", len(groups))
+    nbad = 0
+    for key, rows in sorted(groups.items()):
+        ref = rows[0][1]
+        for line, ans, i in rows[1:]:
+            if ans == ref and not ans.startswith(("CRASH", "NOT-RUN")):
+                continue
+            nbad += 1
+            if nbad > 3:
+                continue
+            if ans.startswith("CRASH") or ref.startswith("CRASH"):
+                rc, err = crashes.get(i, crashes.get(rows[0][2], (0, "")))
+                run.violation("impl", "dump object %s: crash (exit %s) with layers that override nothing: %s"
+                              % (key, rc, line), {"engine": "cb", "ops": line, "impl_stderr_tail": err[-1200:]},
+                              found_input=True, signature="cb layers crash " + err[-200:])
+                continue
+            diff = [(a, b) for a, b in zip(ref.split(), ans.split()) if a != b][:4]
+            run.violation("spec", "dump object %s: stacking %s layer(s) that override nothing on the context from "
+                          "kdump_get_addrxlat() changes what the application observes: %s"
+                          % (key, line.split()[1], "; ".join("%s -> %s" % d for d in diff)),
+                          {"engine": "cb", "ops": line, "without_layers": ref, "with_layers": ans,
+                           "how": "bin/check C17 --replay <this file> re-runs the group"},
+                          found_input=True, signature="cb layers " + (diff[0][0].split("=")[0] if diff else "?"))
 
 
 def compare(run, exe, cases, model, spec, impl, crashes):
@@ -179,24 +273,40 @@ def check(run):
     if run.replay_path:
         rp = core.json.load(open(run.replay_path))["replay"]
         cases = [["K", kpath]] if rp["ops"] == "K" else [rp["ops"].split()]
+        if rp["ops"].startswith("L ") or rp["ops"] == "SITES":
+            cases = []
     else:
         n = 3000 if quick else 120000
         cases = [["K", kpath]] + [gen_case(run.rng, 5 if quick else 6) for _ in range(n)]
-    lines = [" ".join(c) for c in cases]
+    check_sites(run)
+    lcases = [] if (run.replay_path and not rp["ops"].startswith("L ")) else layer_cases(run)
+    if run.replay_path and rp["ops"].startswith("L "):
+        f = rp["ops"].split()
+        lcases = [(k, l) for k, l in lcases if l.split()[2:4] == f[2:4]]
+        cases = []
+    nplain = len(cases)
+    lines = [" ".join(c) for c in cases] + [l for _, l in lcases]
     run.cov["rule"] = ("stacks of 1..5 (thorough: 6) layers over a fresh context, each layer with private data or NULL and "
                        "a random subset of the seven hooks overridden (35% override nothing, 15% everything); every "
                        "hook invoked through addrxlat_ctx_get_cb() after building, between additions and after every "
                        "deletion (random order); plus one kdump_ctx_t translation context with an added and removed "
                        "empty layer; distinct = distinct op strings; non-trivial = at least two layers")
-    run.cov["engines"]["cb"] = {"generated": len(cases)}
+    run.cov["rule"] += ("; plus dump objects (suite dumps of 7 architectures and 4 formats, OS type linux / xen / unset) "
+                        "with 0, 1 and 2 layers that override nothing stacked on the context from kdump_get_addrxlat() "
+                        "before the file is opened: attributes, reads in three address spaces and hook answers must be "
+                        "identical; plus a scan of the sources for in-library hook invocation sites against "
+                        "CbModel.library_sites")
+    run.cov["engines"]["cb"] = {"generated": len(cases), "dump_object_lines": len(lcases)}
     cf = run.casefile("cb-cases.txt", lines)
     model = core.run_model("cb", cf)
     spec = core.run_model("cb-spec", cf)
     impl, crashes = core.run_impl_lines(exe, run.work, lines, timeout=300)
-    if run.replay_path:
+    if run.replay_path and lines:
         print("model:          " + model[0])
         print("spec:           " + spec[0])
         print("implementation: " + impl[0])
     if crashes:
         run.count("impl-abnormal-exit", len(crashes))
-    compare(run, exe, cases, model, spec, impl, crashes)
+    judge_layers(run, exe, lcases, impl, crashes, nplain)
+    compare(run, exe, cases, model[:nplain], spec[:nplain], impl[:nplain],
+            {i: c for i, c in crashes.items() if i < nplain})
